@@ -50,6 +50,9 @@ func verifyFunc(p *Prog, fi *FuncInfo, modeOverride string) *VC {
 	vc.stack = []string{fi.Key}
 	vc.noSafety = ct != nil && ct.NoSafety
 	vc.splitJoins = ct != nil && ct.NoMerge
+	if ct != nil {
+		vc.maxDeg = ct.MaxDegree
+	}
 	// parameters
 	bindP := func(pv *types.Var) {
 		if pv == nil || pv.Name() == "" || pv.Name() == "_" {
